@@ -209,6 +209,29 @@ def run(ck):
                 ck.violation(f'label is not the arg-max of the probability row (single hard-routed tree, logistic leaf solver): row {Ql[r].tolist()} has probabilities {Pl[r].tolist()} '
                              f'and label {int(labl[r])}; {len(badl)} of {len(Ql)} rows on {descl}', dict(descl, row=Ql[r].tolist(), proba=Pl[r].tolist(), label=int(labl[r])),
                              key=json.dumps(dict(site='proba', what='logistic-argmax')))
+    # ---- classification targets passed as float one-hot matrices (the documented second way), incl. the BINARY case (N,2): rows of n_classes entries, labels in range
+    orng = np.random.default_rng(ck.seed + 1221)
+    for j in range(ck.n(3, 9)):
+        Ko = [2, 3, 2][j % 3]; no, do = 120, 3
+        Xo = xr.make_X('random', no, do, orng); lo = (Xo[:, 0] > 0).astype(np.int64) if Ko == 2 else np.digitize(Xo[:, 0], [-0.5, 0.5])
+        Xvo = xr.make_X('random', 40, do, orng); lvo = (Xvo[:, 0] > 0).astype(np.int64) if Ko == 2 else np.digitize(Xvo[:, 0], [-0.5, 0.5])
+        desco = dict(kind='float one-hot targets', j=j, K=Ko, soft=bool(j % 2), n_trees=[1, 2][(j // 2) % 2], seed=ck.seed)
+        xr.seed_all(1240 + j + ck.seed)
+        mo = xr.xRFM(rfm_params=xr.default_rfm_params(iters=1, reg=1e-2, bandwidth=4.0), max_leaf_size=[10_000, 50][j % 2], n_trees=desco['n_trees'], verbose=False, tuning_metric='brier',
+                     classification_mode='zero_one', use_temperature_tuning=False, split_temperature=(0.5 if j % 2 else None))
+        try:
+            with xr.quiet():
+                mo.fit(torch.tensor(Xo), torch.tensor(np.eye(Ko, dtype=np.float32)[lo]), torch.tensor(Xvo), torch.tensor(np.eye(Ko, dtype=np.float32)[lvo]))
+                Qo = np.concatenate([Xo[:20], xr.make_X('random', 30, do, orng), 1e6 * (np.abs(xr.make_X('random', 2, do, orng)) + 1.0)]).astype(np.float32)
+                Po = np.asarray(mo.predict_proba(torch.tensor(Qo)), dtype=np.float64); labo = np.asarray(mo.predict(torch.tensor(Qo)))
+        except Exception as e:
+            ck.notes.append(f'float one-hot fit failed {desco}: {e!r}'[:300]); ck.count('float one-hot fit failed'); continue
+        ck.case(desco, nontrivial=True); ck.count(f'float one-hot targets K={Ko}')
+        oko = Po.shape == (len(Qo), Ko) and np.all(np.isfinite(Po)) and np.all(Po >= 0) and np.all(np.abs(Po.sum(1) - 1) < 1e-5)
+        labs_o = labo.reshape(len(Qo), -1).argmax(1) if labo.ndim == 2 and labo.shape[1] == Ko else labo.reshape(-1)
+        if not oko or labs_o.min() < 0 or labs_o.max() >= Ko:
+            ck.violation(f'{Ko}-class fit on float one-hot targets: predict_proba has shape {Po.shape} (expected ({len(Qo)}, {Ko})), labels span [{labs_o.min()}, {labs_o.max()}] on {desco}',
+                         dict(desco, shape=list(Po.shape), first_row=Po[0].tolist()), key=json.dumps(dict(site='proba', what='float-one-hot', K=Ko)))
     res = ck.run_bool_cases('proba', HEADER, cases, shard=6)
     bad = [meta[k] for k, v in res.items() if v is not True]
     ck.obligation(f'correspondence: predict_proba of {len(cases)} real fits == Q model (decode/clamp/normalise/tree mean) on the implementation\'s raw leaf outputs',
